@@ -28,7 +28,7 @@ RULE = (
 )
 TRUSTED_BASE = [
     "Lean 4.33 kernel; axioms subset of {propext, Classical.choice, Quot.sound}",
-    "hand-written models LiquidVerif/Model/{Value,Cond,BoolParse}.lean of is_truthy/_eq/_lt/_contains, Empty/Blank equality, if/unless/case/ternary branch selection and the Pratt parser of logical.py",
+    "hand-written models LiquidVerif/Model/{Value,Cond,CondParse}.lean of is_truthy/_eq/_lt/_contains, Empty/Blank equality, if/unless/case/ternary branch selection and the Pratt parser of logical.py",
     "tools/emitters/c12_tables.py (Python ast -> Gen/C12Tables.lean): precedences, BINARY_OPERATORS, infix node table, operand precedences of not/group — regenerated every run; the parser theorems are stated over these constants",
     "correspondence harness harness/props/c12.py + Driver/C12.lean (differential: every case renders through the real tags and through the model)",
     "CPython semantics modelled, sampled by the correspondence: exact int/float/Decimal comparison, True == 1, list/dict/range equality, str < by code point, str.isspace (exhaustive to U+3100), substring search",
